@@ -289,11 +289,16 @@ def _streams_exhaustive(n_streams: int):
             # a garbage prefix ending in 0x83 directly before 8370 would read 83 83 70: fine (marker-free: no "8370" inside)
             items.append({"body": body.hex(), "garbage": g.hex(), "cnt": "%04x" % ((k + j) & 0xFFFF), "type": [3, 1, 15, 3][(k + j) % 4]})
         out.append({"items": items})
+    # payloads that carry a complete, well-formed V3 packet inside (a relayed / quoted packet): every cut set of size <= 3 includes the
+    # cuts exactly at the embedded packet's first and last byte
+    inner = bytes.fromhex("8370000420030009aabbccdd")
+    out.append({"items": [{"body": (b"\x01\x02" + inner + b"\x03").hex(), "garbage": "", "cnt": "0001", "type": 3}, {"body": "a1b2", "garbage": "", "cnt": "0002", "type": 3}]})
+    out.append({"items": [{"body": (inner + inner).hex(), "garbage": "11", "cnt": "0003", "type": 3}]})
     return out
 
 
 def run(ctx) -> None:
-    nstreams = 6 if ctx.quick else 200
+    nstreams = 6 if ctx.quick else 200        # (+ 2 streams with embedded packets, always)
     total = 0
     for si, base in enumerate(_streams_exhaustive(nstreams)):
         stream, _ = build_stream(dict(base, cuts=[]))
